@@ -175,6 +175,20 @@ func init() {
 						c.Report(Finding{Class: "violation", What: fmt.Sprintf("host %q: IsIPv4=%s disagrees with the ends-in-a-number checker", h, io.Fields[fIsIPv4]), Case: cs2})
 					}
 				}
+				// (b') the same under lax host parsing (what the GoogleSafeBrowsing and Semantic profiles use): for a host the default
+				// parser does not reject on a forbidden code point, lax parsing must recognise and canonicalise IPv4 the same way
+				if want, ok, decided := expectSpecialHost(d, h); decided && !strings.ContainsAny(h, "/\\?#@:[] \t\n\r") &&
+					!strings.ContainsAny(asciiLower(pctDecode(h)), forbiddenDomain) && (i < total/8 || i >= total) {
+					lax := cfgFromDesc("lax")
+					in := "http://" + h + "/"
+					io := c.cmpParse(d, lax, nil, in, allButVerrs, true, "ipv4-api:lax", i)
+					cs3 := Case{Kind: "parse", Cfg: lax.Desc, Input: in, Family: "ipv4-api:lax", Index: i}
+					if ok != (io.Kind == "U") {
+						c.Report(Finding{Class: "violation", What: fmt.Sprintf("under lax host parsing, host %q of a special URL: implementation %s, the standard %s", h, io.String(), map[bool]string{true: "accepts it as " + want, false: "rejects it"}[ok]), Case: cs3})
+					} else if ok && io.Fields[fHostname] != want {
+						c.Report(Finding{Class: "violation", What: fmt.Sprintf("under lax host parsing, host %q of a special URL serializes as %q, the standard's result is %q", h, io.Fields[fHostname], want), Case: cs3})
+					}
+				}
 				if !strings.ContainsAny(h, "\x00/\\?#@:[] \t\n\r<>^|") && isASCII(h) && h != "" {
 					in := "sc://" + h + "/x"
 					io := c.cmpParse(d, defaultCfg, nil, in, allButVerrs, true, "ipv4-opaque", i)
